@@ -130,7 +130,9 @@ def print_assumptions(module, theorems):
         elif line.startswith("@@END"):
             cur = None
         elif cur is not None:
-            m = re.match(r"^([A-Za-z_][\w.']*)\s*:", line)
+            # an axiom's name starts a line in column 0; its type follows on the same line or, when
+            # long, on indented continuation lines
+            m = re.match(r"^([A-Za-z_][\w.']*)\s*(:|$)", line)
             if m and m.group(1) not in ("Axioms", "Closed"):
                 res[cur].append(m.group(1))
     return res, out
